@@ -42,7 +42,7 @@ def tree_hash():
             if f.endswith('.rs') or f in ('Cargo.toml', 'Cargo.lock', 'build.rs') or f.endswith('.proto'):
                 files.append(os.path.join(root, f))
     for p in files:
-        h.update(p.encode())
+        h.update(os.path.relpath(p, REPO).encode())   # the facts do not depend on where the tree is checked out
         try:
             with open(p, 'rb') as fh:
                 h.update(fh.read())
@@ -106,7 +106,7 @@ def ensure_facts(verbose=True):
         open(os.path.join(fdir, 'OK'), 'w').write(th)
         # keep only the most recent fact sets
         allsets = sorted(glob.glob(os.path.join(CACHE, 'facts', '*')), key=os.path.getmtime)
-        for old in allsets[:-24]:
+        for old in allsets[:-140]:
             shutil.rmtree(old, ignore_errors=True)
         dt = time.time() - t0
         if verbose:
